@@ -42,7 +42,8 @@ class URI(dns.rdata.Rdata):
             raise dns.exception.SyntaxError("URI target cannot be empty")
 
     def to_styled_text(self, style: dns.rdata.RdataStyle) -> str:
-        return f'{self.priority} {self.weight} "{self.target.decode()}"'
+        target = dns.rdata._escapify(self.target)
+        return f'{self.priority} {self.weight} "{target}"'
 
     @classmethod
     def from_text(
@@ -50,7 +51,7 @@ class URI(dns.rdata.Rdata):
     ):
         priority = tok.get_uint16()
         weight = tok.get_uint16()
-        target = tok.get().unescape()
+        target = tok.get().unescape_to_bytes()
         if not (target.is_quoted_string() or target.is_identifier()):
             raise dns.exception.SyntaxError("URI target must be a string")
         return cls(rdclass, rdtype, priority, weight, target.value)
